@@ -1,0 +1,86 @@
+//go:build verif
+
+package op
+
+// Contracts for govc (contract-based deductive verification, see /verif/DESIGN.md).
+// This file is compiled only with -tags verif and contains no executable code.
+
+//@ define kacc(a) ite(a == Sharp, 1, ite(a == Flat, 0 - 1, 0))
+//@ define validKAcc(a) a == Natural || a == Sharp || a == Flat
+//@ define validKey(k) note.validName(k.Name) && validKAcc(k.Accidental)
+//@ define supported(k) validKey(k) && spec.keySupported(note.letter(k.Name), kacc(k.Accidental), k.Minor)
+//@ define snSemi(n) spec.letterSemi(note.letter(n.Name)) + kacc(n.Accidental)
+//@ define validSN(n) note.validName(n.Name) && validKAcc(n.Accidental)
+
+// ---- accidentals, keys ----
+
+//@ func Accidental.Tendency returns (r)
+//@   pure
+//@   requires validKAcc(a) && validKAcc(x)
+//@   ensures validKAcc(r)
+
+//@ func Accidental.AsNoteAccidental returns (r)
+//@   pure
+//@   ensures note.accSemi(r) == kacc(a) && (r == note.Natural || r == note.Sharp || r == note.Flat)
+
+//@ func Accidental.Semitone returns (s)
+//@   pure
+//@   ensures s == kacc(a)
+
+//@ func Key.Semitone returns (s)
+//@   pure
+//@   requires note.validName(k.Name)
+//@   ensures s == spec.keySemi(note.letter(k.Name), kacc(k.Accidental))
+
+//@ func ScaleNote.Semitone returns (s)
+//@   pure
+//@   requires note.validName(n.Name)
+//@   ensures s == snSemi(n)
+
+// ---- scales (C13) ----
+
+//@ func NewScale returns (s, err)
+//@   allocs Scale, ScaleNote
+//@   ensures (err == nil) == supported(key)
+//@   ensures err != nil ==> s == nil
+//@   ensures err == nil ==> s != nil && fresh(s) && s.Key == key
+//@   ensures err == nil ==> forall(i, 0, 7, s.Notes[i] != nil && fresh(s.Notes[i]))
+//@   ensures err == nil ==> forall(i, 0, 7, forall(j, 0, 7, i != j ==> s.Notes[i] != s.Notes[j]))
+//@   ensures err == nil ==> forall(i, 0, 7, validSN(s.Notes[i]) && note.letter(s.Notes[i].Name) == spec.scaleLetter(note.letter(key.Name), i))
+//@   ensures err == nil ==> forall(i, 0, 7, kacc(s.Notes[i].Accidental) == spec.scaleAcc(note.letter(key.Name), kacc(key.Accidental), key.Minor, i))
+//@   ensures err == nil ==> s.Sharp == spec.countAcc(note.letter(key.Name), kacc(key.Accidental), key.Minor, 1)
+//@   ensures err == nil ==> s.Flat == spec.countAcc(note.letter(key.Name), kacc(key.Accidental), key.Minor, 0 - 1)
+//@   ensures err == nil ==> !(s.Sharp > 0 && s.Flat > 0)
+//@   ensures err == nil ==> forall(i, 0, 7, (s.Notes[i].Accidental == Sharp) == (spec.sharpOrder(note.letter(s.Notes[i].Name)) < s.Sharp))
+//@   ensures err == nil ==> forall(i, 0, 7, (s.Notes[i].Accidental == Flat) == (spec.flatOrder(note.letter(s.Notes[i].Name)) < s.Flat))
+
+// ---- note names to degrees (C03) ----
+
+//@ func Scale.Tonic returns (t)
+//@   pure
+//@   ensures t == s.Notes[0]
+
+//@ func Scale.GetNoteIndexByName returns (i, err)
+//@   pure
+//@   requires forall(j, 0, 7, s.Notes[j] != nil)
+//@   ensures err == nil ==> 0 <= i && i < 7 && s.Notes[i].Name == n && forall(j, 0, 7, j < i ==> s.Notes[j].Name != n)
+//@   ensures (err == nil) == exists(j, 0, 7, s.Notes[j].Name == n)
+
+// GetDegree measures x from n: the number is the letter distance, the size the pitch
+// distance (lifted into one octave); it fails exactly when no quality of that number has that size.
+//@ func ScaleNote.GetDegree returns (d, err)
+//@   pure
+//@   requires x != nil && validSN(n) && validSN(x)
+//@   ensures err == nil ==> d.Value == spec.simpleNumber(note.letter(x.Name) - note.letter(n.Name) + 1)
+//@   ensures err == nil ==> spec.validInterval(d.Value, note.qual(d.Name))
+//@   ensures err == nil ==> spec.intervalSize(d.Value, note.qual(d.Name)) == spec.ascLetterDist(note.letter(n.Name), note.letter(x.Name)) + kacc(x.Accidental) - kacc(n.Accidental)
+//@   ensures exists(c, 1, 7, c != 4 && spec.intervalSize(spec.simpleNumber(note.letter(x.Name) - note.letter(n.Name) + 1), spec.coerceQual(c, spec.simpleNumber(note.letter(x.Name) - note.letter(n.Name) + 1))) == spec.lift12(snSemi(x) - snSemi(n))) ==> err == nil
+
+//@ define wfScale(s) s != nil && forall(i, 0, 7, s.Notes[i] != nil && validSN(s.Notes[i]) && note.letter(s.Notes[i].Name) == spec.scaleLetter(note.letter(s.Notes[0].Name), i))
+
+//@ func lemmaC03ScaleNotesAccepted returns (root, err1, bass, err2)
+//@   enumerate k in keySignatures
+//@   requires supported(k) && 0 <= i && i < 7 && 0 <= j && j < 7
+//@   ensures err1 == nil && root.Value == i + 1 && note.qual(root.Name) == spec.ownDegreeQual(k.Minor, i)
+//@   ensures err2 == nil && bass.Value == spec.simpleNumber(j - i + 1)
+//@   ensures spec.intervalSize(bass.Value, note.qual(bass.Name)) == spec.fmod(spec.stepCum(k.Minor, j) - spec.stepCum(k.Minor, i), 12)
